@@ -196,6 +196,21 @@ pub fn resp_check(kind: Kind, mode: Mode, model: &Value, info: RInfo, obs: &mut 
                     )
                 })?;
             }
+            // transport buffers are reused: whatever sits behind the status byte after serialising
+            // into a buffer that already held a message (the same one) or other bytes must be one
+            // canonical item as well - no stale bytes in front of, behind or instead of the body
+            for (what, reused) in [("reused-buffer", crate::respmodel::serialize_twice(&resp)), ("dirty-buffer", serialize_dirty(&resp, 1 + (n_entries * 7) % 40))] {
+                obs.label(what);
+                if reused.len() > 1 {
+                    refcbor::check_canonical(&reused[1..]).map_err(|m| {
+                        Fail::new(
+                            format!("{}:{}", sig_of(prop, kind.name(), &m), what),
+                            format!("{} response serialised into a {}: what follows the status byte is not one canonical CBOR item: {}", kind.name(), what, m),
+                            case(&reused),
+                        )
+                    })?;
+                }
+            }
         }
     }
     Ok(())
